@@ -146,3 +146,27 @@ Example C06_capacity_example :
   (takes_more 1 2 (2 ^ 32 - 4) 3, takes_more 1 2 (2 ^ 32 - 4) 4, takes_more 1 4 (2 ^ 32 - 4) 4, takes_more 1 2 (2 ^ 32 - 1) 1)
   = (true, false, true, false).
 Proof. vm_compute. reflexivity. Qed.
+
+(* ---------------------------------------------------------------------------------- *)
+(* Round 6: histories of CALLS that contain close() (Model/LasEnd.v)                   *)
+(* ---------------------------------------------------------------------------------- *)
+From LasV Require Import Model.AppendCap Model.LasEnd Proofs.EndProofs.
+
+(* whatever follows the first close - a second close (explicit close inside a with-block), more chunks, more closes - the file of the session is
+   the file its first close produced from the calls before it (for any closing function: aclose_t of the code as it is, aclose) *)
+Theorem C06_history_with_closes : forall ap closef ops s,
+  snd (arun_ops ap closef s ops) = if has_close ops then Some (closef (acalls ap s (before_close ops))) else None.
+Proof. exact arun_ops_spec. Qed.
+Print Assumptions C06_history_with_closes.
+
+Theorem C06_after_close_inert : forall ap closef calls post s,
+  snd (arun_ops ap closef s (calls_of calls ++ AoClose :: post)) = Some (closef (acalls ap s calls)).
+Proof. exact after_close_inert. Qed.
+Print Assumptions C06_after_close_inert.
+
+(* ... hence, with refused calls anywhere and anything after the first close, it is the append of the chunks ACCEPTED before the first close
+   (to which C06_append_equiv applies: byte for byte the one-shot file) *)
+Theorem C06_ended_session_file : forall ap src s calls post, aopen src = Ok s ->
+  snd (arun_ops ap (aclose) s (calls_of calls ++ AoClose :: post)) = Some (arun ap src (taken ap s calls)).
+Proof. exact ended_session_file. Qed.
+Print Assumptions C06_ended_session_file.
